@@ -6,7 +6,8 @@ import re
 from typing import Any, Dict, List, Optional, Set, Tuple
 
 from ..core import AnalysisError, Report
-from ..pyfacts import Repo, calls, dotted, fold, norm, walk_no_nested
+from ..pysubst import method_outcomes
+from ..pyfacts import Repo, eval_int_expr, calls, dotted, fold, norm, walk_no_nested
 
 PARSER = 'flipjump/assembler/fj_parser.py'
 EXPR = 'flipjump/assembler/inner_classes/expr.py'
@@ -246,16 +247,30 @@ def rule_literals(rep: Report, repo: Repo) -> None:
               'C12.LITERALS', 'char regex', consts['char'][:80], PARSER,
               expected='printable except backslash | backslash + a table key | \\x + exactly two hex digits')
     num = repo.func(PARSER, 'FJLexer.NUMBER')
-    branches: List[Tuple[str, str]] = []
-    for n in ast.walk(num):
-        if isinstance(n, ast.If) and 'n[' in norm(n.test):
-            for st in n.body:
-                if isinstance(st, ast.Assign) and norm(st.targets[0]) == 't.value':
-                    branches.append((norm(n.test), norm(st.value)))
-    wantb = [('n[0] == "\'"', 'get_char_value_and_length(n[1:-1])[0]'), ("n[1] in 'xX'", 'int(n, 16)'), ("n[1] in 'bB'", 'int(n, 2)')]
-    elses = [norm(st.value) for n in ast.walk(num) if isinstance(n, ast.If) for st in n.orelse if isinstance(st, ast.Assign)]
-    rep.check(branches == wantb and elses.count('int(n)') >= 1 and 'int(t.value)' in elses, 'C12.LITERALS', 'NUMBER dispatch',
-              f'{branches} else {elses}', f'{PARSER}:{num.lineno}', expected="char -> decoder; 0x -> base 16; 0b -> base 2; else base 10")
+    # every path of NUMBER (forward substitution; branch order / nesting / negation do not matter): the conditions that hold on the
+    # path select the decoder - a leading quote -> the char decoder, second char x/X -> base 16, b/B -> base 2, otherwise base 10
+    outs = method_outcomes(repo, PARSER, 'FJLexer', 'NUMBER')
+    bad = []
+    kinds = set()
+    for o in outs:
+        c = set(o.conds)
+        if '"\'" == t.value[0]' in c:
+            want, kind = 't.value = get_char_value_and_length(t.value[1:-1])[0]', 'char'
+        elif "t.value[1] in 'xX'" in c:
+            want, kind = 't.value = int(t.value, 16)', 'hex'
+        elif "t.value[1] in 'bB'" in c:
+            want, kind = 't.value = int(t.value, 2)', 'bin'
+        else:
+            want, kind = 't.value = int(t.value)', 'dec'
+        kinds.add(kind)
+        if o.effects != [want] or o.result != ('return', 't'):
+            bad.append(f'{sorted(c)} -> {o.effects}')
+        # a path that is taken for the decimal decoder must have excluded the three prefixes or be too short to have one
+        if kind == 'dec' and not ({'"\'" != t.value[0]', "t.value[1] not in 'xX'", "t.value[1] not in 'bB'"} <= c or 'len(t.value) < 2' in c):
+            bad.append(f'decimal path without excluding the prefixes: {sorted(c)}')
+    rep.check(not bad and kinds == {'char', 'hex', 'bin', 'dec'}, 'C12.LITERALS', 'NUMBER dispatch',
+              bad[0] if bad else f'{len(outs)} paths: {sorted(kinds)}', f'{PARSER}:{num.lineno}',
+              expected="char -> decoder; 0x -> base 16; 0b -> base 2; else base 10")
     dec = repo.func(PARSER, 'get_char_value_and_length')
     rets = []
     for stt in dec.body:
@@ -268,7 +283,34 @@ def rule_literals(rep: Report, repo: Repo) -> None:
               f'{PARSER}:{dec.lineno}', expected='plain -> (ord, 1); escape -> (table, 2); \\xHH -> (hex, 4)')
     st = repo.func(PARSER, 'FJLexer.STRING')
     packs = [norm(n.value) for n in ast.walk(st) if isinstance(n, ast.Assign) and norm(n.targets[0]) == 't.value']
-    rep.check(packs == ['sum((val << i * 8 for i, val in enumerate(chars)))'], 'C12.LITERALS', 'STRING packing', str(packs),
+    # the packing fold over enumerate(chars), as a sum(...) generator or as an explicit accumulation loop: the summand is folded
+    # for index 0..5 and byte values against value << 8*index
+    fold = None             # (index name, value name, summand)
+    for n in ast.walk(st):
+        if isinstance(n, ast.Call) and dotted(n.func) == 'sum' and len(n.args) == 1 and isinstance(n.args[0], (ast.GeneratorExp, ast.ListComp)):
+            g = n.args[0].generators
+            if len(g) == 1 and norm(g[0].iter) == 'enumerate(chars)' and isinstance(g[0].target, ast.Tuple) and not g[0].ifs:
+                fold = (norm(g[0].target.elts[0]), norm(g[0].target.elts[1]), n.args[0].elt, 'sum')
+        if isinstance(n, ast.For) and norm(n.iter) == 'enumerate(chars)' and isinstance(n.target, ast.Tuple) and len(n.body) == 1:
+            b0 = n.body[0]
+            acc = None
+            if isinstance(b0, ast.AugAssign) and isinstance(b0.op, (ast.Add, ast.BitOr)) and isinstance(b0.target, ast.Name):
+                acc, summand = b0.target.id, b0.value
+            elif isinstance(b0, ast.Assign) and isinstance(b0.targets[0], ast.Name) and isinstance(b0.value, ast.BinOp) \
+                    and isinstance(b0.value.op, (ast.Add, ast.BitOr)) and norm(b0.value.left) == b0.targets[0].id:
+                acc, summand = b0.targets[0].id, b0.value.right
+            if acc is not None:
+                init = [norm(x.value) for x in st.body if isinstance(x, ast.Assign) and norm(x.targets[0]) == acc]
+                if init == ['0'] and packs == [acc]:
+                    fold = (norm(n.target.elts[0]), norm(n.target.elts[1]), summand, 'loop')
+    wrong = []
+    if fold is not None:
+        for i in range(6):
+            for v in (0, 1, 0x41, 0xFF):
+                got = eval_int_expr(fold[2], {fold[0]: i, fold[1]: v})
+                if got != v << (8 * i):
+                    wrong.append(f'index {i}, value {v:#x}: {got:#x}')
+    rep.check(fold is not None and not wrong, 'C12.LITERALS', 'STRING packing', f'{fold[3] if fold else packs}: ' + (wrong[0] if wrong else 'value << 8*index'),
               f'{PARSER}:{st.lineno}', expected='sum(val << (8*i)) over characters in order')
     app = any(isinstance(c, ast.Call) and norm(c) == 'chars.append(val)' for c in ast.walk(st))
     rep.check(app and "s = t.value[1:-1]" in [norm(n) for n in ast.walk(st) if isinstance(n, ast.Assign)], 'C12.LITERALS', 'STRING scan',
